@@ -30,8 +30,7 @@ func c02ExhAlphabet() []c02ExhOp {
 			e.cl.mu.Lock()
 			l := e.cl.nss[1]
 			e.cl.mu.Unlock()
-			e.op(e.cl.nsSet(1, 1-l))
-			e.afterNsChange()
+			e.nsSetOp(1, 1-l)
 		}},
 	}
 }
